@@ -294,7 +294,7 @@ func calcSegmentAvailabilityTime(a *asset, rep *RepData, nr uint32, cfg *Respons
 		return int64(cfg.StartTimeS) * 1000, nil
 	}
 	segAvailTimeS -= ato
-	milliSeconds := int64(segAvailTimeS * 1_000)
+	milliSeconds := int64(math.Ceil(segAvailTimeS * 1_000)) // never before the segment is available
 	return milliSeconds, nil
 }
 
